@@ -137,6 +137,10 @@ func c14Run(r *runCtx, id string, f []string) {
 					}
 				}
 			default:
+				// the version compiles and nothing in the store can refuse it: it must be running
+				if cat[fv].compiles && !kindConflict(cat[fv], "", before.store) && !kindConflict(cat[fv], "", after.store) {
+					addFail("load-has-no-effect", "step %d: %s holds v%d, which compiles and conflicts with nothing, but after the load it is not running (handles %s)", step, prog, fv, after.handles)
+				}
 				// (c) the load failed (compile error or refused registration)
 				if strings.Join(storeOf(before.store, prog), " ") != strings.Join(storeOf(after.store, prog), " ") {
 					cls := "failed-load-changes-export"
@@ -254,9 +258,15 @@ func init() {
 					}
 				}
 			}
+			// unload and load again (same and different contents)
+			for _, a := range []int{0, 1, 10} {
+				for _, b := range []int{0, 1, 2} {
+					emit([]string{fmt.Sprintf("w:a.mtail:%d", a), "load", "l:x", "rm:a.mtail", "load", "l:y", fmt.Sprintf("w:a.mtail:%d", b), "load", "l:x", "load", "l:y"})
+				}
+			}
 			// two programs: registration refusal while the other program owns `c`
-			for _, a := range []int{0, 1, 3} {
-				for _, b := range []int{7, 8, 0, 11} {
+			for _, a := range []int{0, 1, 3, 13} {
+				for _, b := range []int{7, 8, 0, 11, 12} {
 					emit([]string{fmt.Sprintf("w:a.mtail:%d", a), "load", "l:x", fmt.Sprintf("w:b.mtail:%d", b), "load", "l:y", "load"})
 					emit([]string{fmt.Sprintf("w:b.mtail:%d", 7), fmt.Sprintf("w:a.mtail:%d", a), "load", "l:x", fmt.Sprintf("w:b.mtail:%d", b), "load", "l:y"})
 				}
